@@ -389,6 +389,7 @@ def expand_closures(text, root, record):
 
 LOOPSTEP_RE = re.compile(r"^[ \t]*//@@[ \t]*loopstep[ \t]*:[ \t]*(\S+)[ \t]*::[ \t]*(.*?)[ \t]*::[ \t]*(.*?)[ \t]*=>[ \t]*(.*?)[ \t]*;;[ \t]*(.*?)[ \t]*;;[ \t]*(.*?)[ \t]*;;[ \t]*(.*)$", re.M)
 SUFFIX_RE = re.compile(r"^[ \t]*//@@[ \t]*suffix[ \t]*:[ \t]*(\S+)[ \t]*::[ \t]*(.*?)[ \t]*::[ \t]*(.*?)[ \t]*=>[ \t]*(.*?)[ \t]*;;[ \t]*(.*)$", re.M)
+PREFIX_EARLY_RE = re.compile(r"^[ \t]*//@@[ \t]*prefix-early[ \t]*:[ \t]*(\S+)[ \t]*::[ \t]*(.*?)[ \t]*::[ \t]*(.*?)[ \t]*=>[ \t]*(.*?)[ \t]*;;[ \t]*(.*?)[ \t]*;;[ \t]*(.*?)[ \t]*;;[ \t]*(.*?)[ \t]*;;[ \t]*(.*)$", re.M)
 PREFIX_RE = re.compile(r"^[ \t]*//@@[ \t]*prefix[ \t]*:[ \t]*(\S+)[ \t]*::[ \t]*(.*?)[ \t]*::[ \t]*(.*?)[ \t]*=>[ \t]*(.*?)[ \t]*;;[ \t]*(.*)$", re.M)
 
 
@@ -448,6 +449,26 @@ def expand_loopsteps(text, root, record):
                        "substitutions": ["function text from the anchor to the end, verbatim; prologue added by the contract"]})
         return "%s {\n%s\n%s\n}" % (sig, prologue, inner)
 
+    def repl_prefix_early(m):
+        """//@@ prefix-early: <relpath> :: <fn locator> :: <until literal> => <signature WITHOUT return type> ;; <the function's own
+        return type> ;; <state type> ;; <state expression> ;; <dummy value of the function's return type>
+        like `prefix`, but the text runs inside a closure that has the function's OWN return type, so that a `return` (or `?`)
+        placed before the anchor keeps compiling: the generated function returns Ok(state) when the anchor is reached and
+        Err(v) when the function returned v before reaching it."""
+        rel, locator, until, sig, ret, sty, sexpr, dummy = [m.group(i) for i in range(1, 9)]
+        item = extract_item(rel, locator, root)
+        mask, f0, f1 = _fn_block(item)
+        k = mask.find(until, f0)
+        if k < 0:
+            raise LookupError("anchor lost: prefix end %r not found in %s" % (until, locator))
+        inner = item[f0 + 1:k]
+        record.append({"source": ("src/" + rel) if not rel.startswith("src/") else rel, "item": locator + " / prefix up to " + until,
+                       "sha256_of_source_span": sha256(inner), "renamed_to": sig,
+                       "substitutions": ["function text up to the loop, verbatim, run inside a closure of the function's own return type; the contract adds: state capture at the anchor, Ok(state) / Err(early return value)"]})
+        return ("%s -> Result<%s, %s> {\nlet mut verif_state: Option<%s> = None;\nlet verif_ret: %s = (|| -> %s {\n%s\nverif_state = Some(%s);\n%s\n})();\n"
+                "match verif_state { Some(s) => Ok(s), None => Err(verif_ret) }\n}" % (sig, sty, ret, sty, ret, ret, inner, sexpr, dummy))
+
+    text = PREFIX_EARLY_RE.sub(repl_prefix_early, text)
     text = LOOPSTEP_RE.sub(repl_loop, text)
     text = SUFFIX_RE.sub(repl_suffix, text)
     return PREFIX_RE.sub(repl_prefix, text)
@@ -1151,7 +1172,7 @@ def cmd_check(args):
     return rc
 
 
-def run_kani(kani_obs, scratch, results, stage_record, extra_tests=None, playback_only=None, nocover=False):
+def run_kani(kani_obs, scratch, results, stage_record, extra_tests=None, playback_only=None, nocover=False, _isolating=False):
     used_files = []
     for o in kani_obs:
         if o.cfile not in used_files:
@@ -1167,10 +1188,33 @@ def run_kani(kani_obs, scratch, results, stage_record, extra_tests=None, playbac
                     if allf[nm] not in [u for u in used_files] and nm not in [u.path.name for u in used_files]:
                         used_files.append(allf[nm])
                         changed = True
+
+    def _isolate(why):
+        """a contract file whose extracted text no longer compiles / whose anchor is lost must not mask what the OTHER
+        contract files decide: re-stage each contract file on its own (only ever happens on a modified tree)"""
+        groups = {}
+        for o in kani_obs:
+            groups.setdefault(o.cfile.path.name, []).append(o)
+        if len(groups) <= 1 or playback_only or _isolating:
+            return False
+        log("  %s; re-staging each of the %d contract files on its own" % (why, len(groups)))
+        for k, (name, obs) in enumerate(sorted(groups.items())):
+            sub = scratch / ("iso%d" % k)
+            sub.mkdir(exist_ok=True)
+            rec2 = {}
+            run_kani(obs, sub, results, rec2, nocover=nocover, _isolating=True)
+            for key in ("appended", "bodies"):
+                stage_record.setdefault(key, [])
+                stage_record[key].extend(x for x in rec2.get(key, []) if x not in stage_record[key])
+            shutil.rmtree(sub, ignore_errors=True)
+        return True
+
     try:
         stage, rec = stage_kani(scratch, used_files, extra_tests, nocover=nocover)
         stage_record.update(rec)
     except LookupError as e:
+        if _isolate("anchor lost while staging (%s)" % str(e)[:120]):
+            return None
         for o in kani_obs:
             results[o.id] = {"state": "undecided", "reason": "ANCHOR-LOST: %s" % e, "seconds": 0}
         return None
@@ -1184,6 +1228,8 @@ def run_kani(kani_obs, scratch, results, stage_record, extra_tests=None, playbac
     if st != "exit0":
         m = re.search(r"^error.*(?:\n.*){0,12}", btxt, re.M)
         reason = "ANCHOR-LOST / staged crate does not compile: " + (m.group(0)[:1200] if m else st)
+        if _isolate("staged crate does not compile"):
+            return stage
         for o in kani_obs:
             results[o.id] = {"state": "undecided", "reason": reason, "seconds": 0}
         return stage
